@@ -268,8 +268,10 @@ def antitone : List Int → Bool
   | [_] => true
   | a :: b :: rest => decide (a ≥ b) && antitone (b :: rest)
 
-/-- number of distinct values -/
-def distinct (l : List Int) : Nat := l.eraseDups.length
+/-- number of distinct values (every value is counted at its last occurrence) -/
+def distinct : List Int → Nat
+  | [] => 0
+  | k :: ks => (if ks.contains k then 0 else 1) + distinct ks
 
 /-- counting rule `keep-<kind> n`, as the code behaves for any key sequence: `s` starts a new run
     of equal keys (or is the oldest snapshot) and fewer than `n` runs started before it -/
